@@ -129,6 +129,10 @@ LETTER_REQ = {"S": {"op": "debug_log_start"}, "F": {"op": "debug_log_finish"}, "
 
 
 def J(v):
+    # a panic answer may carry the panic location / innermost function (added by the harness' panic hook, which only the
+    # top-level request loop has): not part of the compiler's answer
+    if isinstance(v, dict) and "panic" in v:
+        v = {k: x for k, x in v.items() if k not in ("at", "fn")}
     return json.dumps(v, sort_keys=True, ensure_ascii=True)
 
 
@@ -251,6 +255,12 @@ def canon_query_def(ans, wit):
     return _map_text(ans, f)
 
 
+def canon_except_set(ans, wit):
+    def f(s):
+        return re.sub(r"except: \{([^{}]*)\}", lambda m: "except: {" + ", ".join(sorted(x.strip() for x in m.group(1).split(","))) + "}", s)
+    return _map_text(ans, f)
+
+
 def canon_hint_columns(ans, wit):
     def f(s):
         return re.sub(r"available columns: ([\w.`, ]+)", lambda m: "available columns: " + ", ".join(sorted(x.strip() for x in m.group(1).split(","))), s)
@@ -319,7 +329,7 @@ def canon_equal_module_path(ans, wit):
     return {"module-path-ambiguous": True}
 
 
-CANON = [("pl-json-named-args-order", canon_pl_json), ("fmt-named-args-order", canon_fmt_named),
+CANON = [("error-prints-except-hashset", canon_except_set), ("pl-json-named-args-order", canon_pl_json), ("fmt-named-args-order", canon_fmt_named),
          ("unknown-named-arg-choice", canon_unknown_named), ("named-args-first-error-choice", canon_first_error),
          ("query-def-unknown-args-order", canon_query_def), ("error-hint-available-columns-order", canon_hint_columns),
          ("wildcard-equal-order-choice", canon_wildcard_order), ("orderby-alias-choice", canon_orderby_alias), ("cte-instance-choice", canon_cte_instance),
